@@ -428,7 +428,7 @@ func init() {
 		NBatches: func(t core.Tier) int { return n(t, 16, 64) },
 		Race:     func(t core.Tier) bool { return t == core.Thorough },
 		Floors: func(t core.Tier) map[string]int {
-			return map[string]int{"evaluations": n(t, 300000, 700000), "distinct_nontrivial": n(t, 100000, 250000), "gen_hostile": n(t, 8000, 90000), "gen_named-error": 40, "gen_tiny-fields": 16, "gen_deep-recursion": 70, "gen_splitter": 100000, "error_messages": 30}
+			return map[string]int{"evaluations": n(t, 300000, 600000), "distinct_nontrivial": n(t, 100000, 200000), "gen_hostile": n(t, 8000, 60000), "gen_named-error": 40, "gen_tiny-fields": 16, "gen_deep-recursion": 70, "gen_splitter": 100000, "error_messages": 30}
 		},
 		Run: func(c *core.Ctx) {
 			rng := c.Rand("cases")
@@ -449,7 +449,7 @@ func init() {
 				}
 			})
 			progs := corpus.All()
-			total := n(c.Tier, 22000, 240000) / c.NBatches // thorough runs on the race build (5-10x slower)
+			total := n(c.Tier, 22000, 150000) / c.NBatches // thorough runs on the race build (5-10x slower)
 			for i := 0; i < total; i++ {
 				switch r := rng.Intn(10); {
 				case r < 6:
